@@ -47,6 +47,9 @@ def check_case(ctx, ds, lname, n, schemes, dataset_obj=None, alg_obj=None, origi
             if alg_obj is not None:
                 alg = alg_obj
             elif reused:
+                case['reused_after'] = list(_lib.setdefault('hist', [])[-2:])
+                _lib['hist'].append({'dataset': ds, 'scheme': s})
+                del _lib['hist'][:-2]
                 # a long-lived algorithm object that has already served every previous case of this shard
                 alg = _lib.setdefault('inst', _lib['A']())
                 ctx.count('executions_on_a_reused_algorithm_object')
@@ -133,6 +136,13 @@ def run_shard(sh):
 
 
 def replay(ctx, c):
+    if c.get('reused_after'):
+        # a long-lived object had served these inputs before: new persistent objects, same history, then the case
+        for k in [k for k in _lib if k == 'inst' or (isinstance(k, tuple) and k and k[0] in ('inst', 'seq'))] + ['hist', 'earlier']:
+            _lib.pop(k, None)
+        scratch = Ctx(ID)
+        for prev in c['reused_after']:
+            check_case(scratch, tt(prev['dataset']), c['labels'], c['n'], [scheme_of(prev['scheme'])])
     if c.get('mutated_in_place_from'):
         histories(ctx, tt(c['mutated_in_place_from'][0]), c['labels'], c['n'], [scheme_of(c['scheme'])])
     else:
